@@ -608,7 +608,11 @@ def run_check(pid, tier, seed, replay=None):
     ev = dict(property_id=pid, tier=tier, seed=int(seed), level=prop["level"]["category"], coverage=cov,
               assumptions=prop.get("assumptions", []), wall_s=round(time.time() - t0, 2),
               violations=len(violations))
-    with open(os.path.join(VERIF, "evidence", pid + ".json"), "w") as f:
+    # evidence is only (re)written by runs against /repo itself; runs against a scratch worktree
+    # (VERIF_REPO, used for mutation testing) leave their record under .build/
+    evp = (os.path.join(VERIF, "evidence", pid + ".json") if os.path.realpath(REPO) == "/repo" and not replay
+           else os.path.join(BUILD, pid, "evidence-scratch.json"))
+    with open(evp, "w") as f:
         json.dump(ev, f, indent=1)
     log.close()
 
